@@ -310,6 +310,22 @@ def validate_events(module, cfg, events, name, nproc=8, timeout=900, xmx="6g", e
     from concurrent.futures import ThreadPoolExecutor
     if not events:
         return [], []
+
+    def out_of_range(v):
+        if isinstance(v, bool):
+            return False
+        if isinstance(v, int):
+            return not (-(1 << 31) < v < (1 << 31))
+        if isinstance(v, float):
+            return True                       # specifications only see integers (wide values travel as 16-bit words)
+        if isinstance(v, (list, tuple)):
+            return any(out_of_range(x) for x in v)
+        if isinstance(v, dict):
+            return any(out_of_range(x) for x in v.values())
+        return False
+    # TLC integers are 32-bit: an event carrying a larger number cannot be what any specification computes (wide
+    # quantities are logged as words), so it is rejected up front instead of crashing the deserialiser
+    events = [ev if not out_of_range(ev) else {"e": "ValueOutsideSpecificationRange"} for ev in events]
     d = workdir("trace-" + name)
     nproc = max(1, min(nproc, (len(events) + 199) // 200))
     per = (len(events) + nproc - 1) // nproc
